@@ -1,0 +1,89 @@
+//go:build verif
+
+package verifhook
+
+import (
+	"github.com/llir/llvm/internal/enc"
+	"github.com/llir/llvm/internal/gep"
+	"github.com/llir/llvm/internal/natsort"
+	"github.com/llir/llvm/ir/types"
+)
+
+// --- internal/natsort
+
+// NatsortLess wraps natsort.Less.
+func NatsortLess(a, b string) bool { return natsort.Less(a, b) }
+
+// NatsortStrings wraps natsort.Strings.
+func NatsortStrings(a []string) { natsort.Strings(a) }
+
+// --- internal/enc
+
+// GlobalName wraps enc.GlobalName.
+func GlobalName(name string) string { return enc.GlobalName(name) }
+
+// GlobalID wraps enc.GlobalID.
+func GlobalID(id int64) string { return enc.GlobalID(id) }
+
+// LocalName wraps enc.LocalName.
+func LocalName(name string) string { return enc.LocalName(name) }
+
+// LocalID wraps enc.LocalID.
+func LocalID(id int64) string { return enc.LocalID(id) }
+
+// LabelName wraps enc.LabelName.
+func LabelName(name string) string { return enc.LabelName(name) }
+
+// LabelID wraps enc.LabelID.
+func LabelID(id int64) string { return enc.LabelID(id) }
+
+// TypeName wraps enc.TypeName.
+func TypeName(name string) string { return enc.TypeName(name) }
+
+// AttrGroupID wraps enc.AttrGroupID.
+func AttrGroupID(id int64) string { return enc.AttrGroupID(id) }
+
+// ComdatName wraps enc.ComdatName.
+func ComdatName(name string) string { return enc.ComdatName(name) }
+
+// MetadataName wraps enc.MetadataName.
+func MetadataName(name string) string { return enc.MetadataName(name) }
+
+// MetadataID wraps enc.MetadataID.
+func MetadataID(id int64) string { return enc.MetadataID(id) }
+
+// EscapeIdent wraps enc.EscapeIdent.
+func EscapeIdent(s string) string { return enc.EscapeIdent(s) }
+
+// EscapeString wraps enc.EscapeString.
+func EscapeString(s []byte) string { return enc.EscapeString(s) }
+
+// Escape wraps enc.Escape.
+func Escape(s []byte, valid func(b byte) bool) string { return enc.Escape(s, valid) }
+
+// Unescape wraps enc.Unescape.
+func Unescape(s string) []byte { return enc.Unescape(s) }
+
+// Quote wraps enc.Quote.
+func Quote(s []byte) string { return enc.Quote(s) }
+
+// Unquote wraps enc.Unquote.
+func Unquote(s string) []byte { return enc.Unquote(s) }
+
+// --- internal/gep
+
+// GepIndex mirrors gep.Index.
+type GepIndex struct {
+	HasVal    bool
+	Val       int64
+	VectorLen uint64
+}
+
+// GepResultType wraps gep.ResultType.
+func GepResultType(elemType, src types.Type, indices []GepIndex) types.Type {
+	var idxs []gep.Index
+	for _, i := range indices {
+		idxs = append(idxs, gep.Index{HasVal: i.HasVal, Val: i.Val, VectorLen: i.VectorLen})
+	}
+	return gep.ResultType(elemType, src, idxs)
+}
